@@ -48,7 +48,7 @@ AgentVerdict(l, req, E, B, T) ==
   ELSE "ok"
 
 \* ------------------------------------------------------------------ incoming
-PduTypes == {"Response", "Report"}
+PduTypes == {"Response", "Report", "Other"}      \* Other: any other PDU type (Trap, Inform, a request): the caller never looks at the type of what comes back
 Vbs == {"good", "evil", "usmStats"}
 \* error-status of the PDU: the PDU is decoded lazily and its first access raises the exception of the status -
 \* NoSuchOID for noSuchName, which walks take for "end of the subtree" (Caller below)
